@@ -211,7 +211,21 @@ func ZZC05Auto() {
 		step(b)
 	}
 	wasDead := ref.Mode == gen.JSDead
+	wasComplete := ref.Complete() && ref.Mode != gen.JSTrailing
 	refOK := step(c)
+	if trailing && wasComplete && ref.Mode == gen.JSTrailing {
+		// C14: the value ended before this foreign byte; Len is the prefix without its trailing blanks
+		want := len(prefix)
+		for want > 0 && (prefix[want-1] == ' ' || prefix[want-1] == '\t' || prefix[want-1] == '\n' || prefix[want-1] == '\r') {
+			want--
+		}
+		l, lerr := New("doc", data, AllowTrailingNonSpaceCharacters()).Len()
+		v.Reach("C14/auto-json-len")
+		v.Assert(lerr == nil, "C14/json-len-error-on-complete-value")
+		if lerr == nil {
+			v.Assert(int(l) == want, "C14/json-len")
+		}
+	}
 
 	s := newScanner(fs.NewFile("doc", data))
 	s.allowTrailingNonSpaceCharacters = trailing
@@ -255,7 +269,17 @@ func ZZC05Auto() {
 		}
 	}
 	if ref.Depth() <= maxDepth && s.stack.Len() <= 2*maxDepth+4 {
-		v.Key(zzKey(s) + "|" + ref.Key())
+		k := zzKey(s) + "|" + ref.Key()
+		if trailing && ref.Complete() {
+			// Len trims the blanks in front of the foreign byte by reading the text backwards: keep apart
+			// the states reached with 0, 1 and 2 or more trailing blanks
+			nb := 0
+			for nb < 2 && nb < len(data) && (data[len(data)-1-nb] == ' ' || data[len(data)-1-nb] == '\t' || data[len(data)-1-nb] == '\n' || data[len(data)-1-nb] == '\r') {
+				nb++
+			}
+			k += "|b" + string(rune('0'+nb))
+		}
+		v.Key(k)
 	}
 	if late {
 		v.Fail("C17/json-first-bad-byte-not-reported")
